@@ -40,15 +40,117 @@ Proof.
   destruct (TableCmd.r_targets r); [congruence | cbn [length]; lia].
 Qed.
 
+(* ---- the keys of every reachable table are lower-case (addRoute lower-cases the host; del
+   and weight never add a key) ---- *)
+Definition keys_lower (t : TableCmd.table) : Prop := Forall (fun k => lower k = k) (map fst t).
+
+Lemma keys_lower_incl t t' :
+  (forall k, In k (map fst t') -> In k (map fst t)) -> keys_lower t -> keys_lower t'.
+Proof.
+  unfold keys_lower. rewrite !Forall_forall. intros Hi H k Hk. apply H. now apply Hi.
+Qed.
+
+Lemma keys_lower_same t t' : map fst t' = map fst t -> keys_lower t -> keys_lower t'.
+Proof. unfold keys_lower. now intros ->. Qed.
+
+Lemma sweep_keys t k : In k (map fst (TableCmd.sweep t)) -> In k (map fst t).
+Proof.
+  unfold TableCmd.sweep. rewrite !in_map_iff. intros [[k0 rs] [<- Hin]].
+  apply filter_In in Hin as [Hin _]. apply in_map_iff in Hin as [[k1 rs1] [E Hin]].
+  cbn [fst] in E. injection E as <- _. exists (k1, rs1). now split.
+Qed.
+
+Lemma filter_all_keys skip t : map fst (TableCmd.filter_all skip t) = map fst t.
+Proof. unfold TableCmd.filter_all. rewrite map_map. reflexivity. Qed.
+
+Section KeysLower.
+  Variable canon : str -> option str.
+  Variable glob_ok : str -> bool.
+
+  Lemma add_route_kl t d t' :
+    keys_lower t -> TableCmd.add_route canon glob_ok t d = Ok t' -> keys_lower t'.
+  Proof.
+    intros Hk. unfold TableCmd.add_route.
+    destruct (TableCmd.hostpath (TableCmd.d_src d)) as [host0 path].
+    destruct (TableCmd.d_src d); [discriminate|].
+    destruct (TableCmd.d_dst d); [discriminate|].
+    destruct (canon _) as [url|]; [|discriminate].
+    destruct (TableCmd.lookup (lower host0) t) as [rs|].
+    - destruct (TableCmd.find path rs).
+      + intros [= <-]. apply (keys_lower_same t); [apply Proofs.TableCmd.upd_host_fst | exact Hk].
+      + destruct (glob_ok path); [|discriminate].
+        intros [= <-]. apply (keys_lower_same t); [apply Proofs.TableCmd.upd_host_fst | exact Hk].
+    - destruct (glob_ok (lower host0)); [|discriminate]. destruct (glob_ok path); [|discriminate].
+      intros [= <-]. unfold keys_lower. rewrite map_app. apply Forall_app. split; [exact Hk|].
+      constructor; [apply lower_idem | constructor].
+  Qed.
+
+  Lemma weigh_route_kl t d t' :
+    keys_lower t -> TableCmd.weigh_route t d = Ok t' -> keys_lower t'.
+  Proof.
+    intros Hk. unfold TableCmd.weigh_route.
+    destruct (TableCmd.hostpath (TableCmd.d_src d)) as [host0 path].
+    destruct (TableCmd.d_src d); [discriminate|].
+    destruct (TableCmd.get_route (lower host0) path t) as [r|]; [|discriminate].
+    destruct (TableCmd.count_match _ _ r =? 0); [discriminate|].
+    intros [= <-]. apply (keys_lower_same t); [apply Proofs.TableCmd.upd_host_fst | exact Hk].
+  Qed.
+
+  Lemma sweep_filter_all_kl skip t : keys_lower t -> keys_lower (TableCmd.sweep (TableCmd.filter_all skip t)).
+  Proof.
+    intros Hk. apply (keys_lower_incl t); [|exact Hk].
+    intros k Hin. apply sweep_keys in Hin. now rewrite filter_all_keys in Hin.
+  Qed.
+
+  Lemma sweep_filter_one_kl h p skip t : keys_lower t -> keys_lower (TableCmd.sweep (TableCmd.filter_one h p skip t)).
+  Proof.
+    intros Hk. apply (keys_lower_incl t); [|exact Hk].
+    intros k Hin. apply sweep_keys in Hin. unfold TableCmd.filter_one in Hin.
+    now rewrite Proofs.TableCmd.upd_host_fst in Hin.
+  Qed.
+
+  Lemma del_route_kl t d t' :
+    keys_lower t -> TableCmd.del_route canon t d = Ok t' -> keys_lower t'.
+  Proof.
+    intros Hk. unfold TableCmd.del_route.
+    destruct (TableCmd.d_tags d).
+    2:{ intros [= <-]. now apply sweep_filter_all_kl. }
+    destruct (TableCmd.d_src d) eqn:Es; destruct (TableCmd.d_dst d) eqn:Ed.
+    - intros [= <-]. now apply sweep_filter_all_kl.
+    - destruct (canon _); [|discriminate].
+      destruct (TableCmd.hostpath []) as [host0 path].
+      destruct (TableCmd.get_route _ _ t); intros [= <-]; [now apply sweep_filter_one_kl | exact Hk].
+    - destruct (TableCmd.hostpath _) as [host0 path].
+      destruct (TableCmd.get_route _ _ t); intros [= <-]; [now apply sweep_filter_one_kl | exact Hk].
+    - destruct (canon _); [|discriminate].
+      destruct (TableCmd.hostpath _) as [host0 path].
+      destruct (TableCmd.get_route _ _ t); intros [= <-]; [now apply sweep_filter_one_kl | exact Hk].
+  Qed.
+
+  Lemma run_from_kl ds : forall t t',
+    keys_lower t -> TableCmd.run_from canon glob_ok t ds = Ok t' -> keys_lower t'.
+  Proof.
+    induction ds as [|d ds IH]; intros t t' Hk; cbn [TableCmd.run_from]; [now intros [= <-]|].
+    destruct (TableCmd.apply_def canon glob_ok t d) as [t1| |] eqn:E; cbn [bind]; try discriminate.
+    apply IH. unfold TableCmd.apply_def in E. destruct (TableCmd.d_cmd d).
+    - now apply (add_route_kl t d).
+    - now apply (del_route_kl t d).
+    - now apply (weigh_route_kl t d).
+  Qed.
+End KeysLower.
+
 (* every table reachable by a command sequence, of any length: no route without targets
    (the invariant that a partial sweep in delRoute would break), hosts pairwise distinct,
    routes sorted *)
 Theorem cmd_table_reachable cs t :
-  cmd_table cs = Ok t -> no_targetless t /\ NoDup (keys t) /\ table_sorted t.
+  cmd_table cs = Ok t -> no_targetless t /\ wf_keys t /\ NoDup (keys t) /\ table_sorted t.
 Proof.
   unfold cmd_table. destruct (TableCmd.run idcanon anyglob (map to_def cs)) as [t0| |] eqn:E;
     try discriminate. intros [= <-].
   pose proof (Proofs.TableCmd.run_inv _ _ _ _ E) as Hinv. split; [now apply proj_no_targetless|].
+  split.
+  { unfold wf_keys, keys, proj. rewrite map_map. cbn [fst].
+    apply (run_from_kl idcanon anyglob (map to_def cs) [] t0); [constructor | exact E]. }
   split.
   - destruct Hinv as [Hnd _]. unfold keys, proj. rewrite map_map. cbn [fst]. exact Hnd.
   - unfold table_sorted, proj. apply Forall_forall. intros e He.
